@@ -125,7 +125,7 @@ def gen_ty(rng, aliases, depth):
 
 def gen_alias_program(rng):
     """returns (items, final types of the declared variables) or None if some type is not valid C"""
-    items, env, aliases = [], {}, []
+    items, env, aliases, ainfo = [], {}, [], []
     nalias = rng.randint(1, 3)
     for i in range(nalias):
         name = "T%d" % i
@@ -141,6 +141,7 @@ def gen_alias_program(rng):
         if not valid(rt, True):
             return None
         env[name] = rt
+        ainfo.append((items[-1][0], name, rt))
         aliases.append(name)
     decls = []
     for j in range(rng.randint(1, 4)):
@@ -152,7 +153,7 @@ def gen_alias_program(rng):
             return None
         items.append(("D", spec, d))
         decls.append((x, rt))
-    return items, decls
+    return items, decls, ainfo
 
 
 def ptype(t, inner=""):
